@@ -82,10 +82,13 @@ def check_tags(out, facts, S, D):
                 for x in its[idx + 1:]:
                     if x[0] == 'alt' and strip(x[1]) == ('byte', e[1]):
                         alts.append(x)
-        if not alts:
-            continue
         ew = S.wire_type(st)
         exp = encoder_tags(ew, st)
+        if not alts:
+            if exp is not None and any(e[0] == 'rb' for e in its):
+                n += 1
+                out.fail('R03.1', 'tag dispatch of %s [%s]' % (i['self'], cfg), 'the encoder writes tag bytes %s but the decoder does not dispatch on the byte it reads' % sorted(exp), fn['loc'])
+            continue
         for a in alts:
             n += 1
             key = 'tag dispatch of %s [%s]' % (i['self'], cfg)
